@@ -184,3 +184,54 @@ def _array(spec, model):
         if r['name'] == spec['name']:
             return {'confirmed': not r['ok'], 'observed': r['detail'], 'expected': 'each value equals the scalar query at the pressure in its own position'}
     return {'confirmed': False, 'error': 'case not found'}
+
+
+def branch_integral_cases():
+    """measured data with a hysteresis loop: on either branch the reduced spreading pressure is the closed-form integral of that
+    branch's piecewise-linear interpolant over ln p, continued to the origin by Henry's law (first point: its loading)"""
+    import math
+    import pygaps
+    pygaps.logger.disabled = True
+    meta = dict(material='pgv_c11', adsorbate='nitrogen', temperature=77.355, pressure_mode='absolute', pressure_unit='bar', loading_basis='molar',
+                loading_unit='mmol', material_basis='mass', material_unit='g', temperature_unit='K')
+    p = [0.05, 0.1, 0.2, 0.4, 0.6, 0.8, 0.95, 0.7, 0.5, 0.3, 0.15]
+    n = [0.5, 0.9, 1.5, 2.2, 2.6, 3.4, 4.0, 3.8, 3.5, 2.4, 1.4]
+    b = [0] * 7 + [1] * 4
+    iso = pygaps.PointIsotherm(pressure=p, loading=n, branch=b, **meta)
+
+    def closed(pts, q):
+        pts = sorted(pts)
+        (p0, n0) = pts[0]
+        if q <= p0:
+            return n0 / p0 * q
+        tot = n0
+        for (pa, na), (pb, nb) in zip(pts, pts[1:]):
+            hi = min(pb, q)
+            if hi <= pa:
+                break
+            s = (nb - na) / (pb - pa)
+            tot += s * (hi - pa) + (na - s * pa) * math.log(hi / pa)
+        return tot
+    branches = {'ads': list(zip(p[:7], n[:7])), 'des': list(zip(p[7:], n[7:]))}
+    for br, pts in branches.items():
+        lo, hi = min(x for x, _ in pts), max(x for x, _ in pts)
+        qs = [lo * 0.5, lo, lo + 0.3 * (hi - lo), lo + 0.55 * (hi - lo), lo + 0.8 * (hi - lo), hi]
+        probs = []
+        for q in qs:
+            want = closed(pts, q)
+            try:
+                got = float(numpy.asarray(iso.spreading_pressure_at(q, branch=br)).ravel()[0])
+            except Exception as exc:
+                probs.append(f"p={q:.4g}: {type(exc).__name__}: {exc}"[:120])
+                continue
+            if not abs(got - want) <= 1e-9 * max(1.0, abs(want)):
+                probs.append(f"p={q:.4g}: returned {got!r}, the integral of the branch's interpolant is {want!r}")
+        yield {'name': f"branch_integral|{br}", 'ok': not probs, 'detail': '; '.join(probs[:3])}
+
+
+@replayer('c11.branch_integral')
+def _branch_integral(spec, model):
+    for r in branch_integral_cases():
+        if r['name'] == spec['name']:
+            return {'confirmed': not r['ok'], 'observed': r['detail'], 'expected': "the integral of the branch's interpolant over ln p, Henry's law below the first point"}
+    return {'confirmed': False, 'error': 'case not found'}
